@@ -23,13 +23,14 @@ package entry
 // ---- entry_map.go: OrderedMap against its representation invariant ----
 // omInv: the map exists, keys are pairwise distinct, every key is present in the value map.
 //@ define omInv(o *OrderedMap) = o != nil && o.values != nil && off(o.keys) == 0 && (forall i int, j int :: 0 <= i && i < j && j < len(o.keys) ==> o.keys[i] != o.keys[j]) && (forall i int :: 0 <= i && i < len(o.keys) ==> has(o.values, o.keys[i])) && (forall k string :: has(o.values, k) ==> exists i int :: 0 <= i && i < len(o.keys) && o.keys[i] == k)
+//@ define freshKeys(o *OrderedMap) = o.keys == nil || fresh(o.keys)
 //@ define isOM(m iface.IPFSLogOrderedEntries) = typeis(m, "*OrderedMap") && omInv(m.(*OrderedMap))
 //@ guarded OrderedMap.keys by OrderedMap.lock
 //@ guarded OrderedMap.values by OrderedMap.lock
 
 //@ func NewOrderedMap
 //@   ensures isOM(result) && fresh(result) && fresh(result.(*OrderedMap).values)
-//@   ensures len(result.(*OrderedMap).keys) == 0
+//@   ensures len(result.(*OrderedMap).keys) == 0 && result.(*OrderedMap).keys == nil
 //@   ensures forall k string :: !has(result.(*OrderedMap).values, k)
 //@   lockensures held[result.(*OrderedMap).lock] == 0
 
@@ -56,7 +57,7 @@ package entry
 //@   ensures has(o.values, key) && o.values[key] == value
 //@   ensures forall k string :: k != key ==> has(o.values, k) == old(has(o.values, k)) && o.values[k] == old(o.values[k])
 //@   ensures old(has(o.values, key)) ==> o.keys == old(o.keys)
-//@   ensures !old(has(o.values, key)) ==> len(o.keys) == old(len(o.keys)) + 1 && o.keys[old(len(o.keys))] == key
+//@   ensures !old(has(o.values, key)) ==> len(o.keys) == old(len(o.keys)) + 1 && o.keys[old(len(o.keys))] == key && fresh(o.keys)
 //@   ensures !old(has(o.values, key)) ==> forall i int :: 0 <= i && i < old(len(o.keys)) ==> o.keys[i] == old(o.keys[i])
 
 //@ func (*OrderedMap).Keys
